@@ -25,13 +25,20 @@ TNext ==
      ELSE
         /\ Recv(e.k)
         /\ LET r == Ref(SubSeq(Stream.bytes, 1, got'), 0, << >>)
-               want == [i \in 1..Len(r.delivered) |-> IF HasId(r.delivered[i].start) THEN IdAt(r.delivered[i].start) ELSE 0 - 1]
+               all == [i \in 1..Len(r.delivered) |-> IF HasId(r.delivered[i].start) THEN IdAt(r.delivered[i].start) ELSE 0 - 1]
+               \* payload decoding is a function of the frame's own bytes (label -2 = the protocol decoder rejects exactly these bytes):
+               \* the stream is refused at the first such frame, whatever arrived after it in the same read
+               bad == {i \in 1..Len(all) : all[i] = 0 - 2}
+               firstBad == IF bad = {} THEN 0 ELSE CHOOSE i \in bad : \A j \in bad : i <= j
+               want == IF firstBad = 0 THEN all ELSE SubSeq(all, 1, firstBad - 1)
+               refRefused == r.refused # "" \/ firstBad # 0
                c == IF Len(e.ids) < Len(want) /\ SubSeq(want, 1, Len(e.ids)) = e.ids THEN "C11:well_formed_message_not_delivered"
                     ELSE IF e.ids # want THEN "C11:delivered_sequence_differs_from_bytes_received"
-                    ELSE IF e.refused /\ r.refused = "" THEN "C11:well_formed_prefix_refused"
+                    ELSE IF e.refused /\ ~refRefused THEN "C11:well_formed_prefix_refused"
                     ELSE IF ~e.refused /\ r.refused # "" THEN "C11:bad_magic_or_oversize_not_refused_at_that_point"
+                    ELSE IF ~e.refused /\ firstBad # 0 THEN "C11:frame_with_undecodable_payload_not_refused_at_that_point"
                     ELSE ""
-               m == IF e.refused THEN (refused' # "")
+               m == IF e.refused THEN (refused' # "" \/ firstBad # 0)
                     ELSE e.buflen = Len(buf') /\ e.magic = magicRead' /\ e.len = len'
            IN IF c # "" THEN Out(c) /\ done' = TRUE /\ l' = l
               ELSE /\ (~m => PrintT(ToJson(<< "DRIFT", Tr.id, l, "receiver fields differ from Framing!Rcv" >>)))
